@@ -273,6 +273,9 @@ class Rdata:
         state = {}
         for slot in self._get_all_slots():
             state[slot] = getattr(self, slot)
+        # Rdata classes which do not declare __slots__ keep their fields in
+        # the instance dictionary; they are part of the state too.
+        state.update(getattr(self, "__dict__", {}))
         return state
 
     def __setstate__(self, state):
